@@ -360,14 +360,14 @@ Proof. exact exec_mv_quiet. Qed.
    by element into a fresh collection (add_items) and rejected by the inserter; a dict for a
    List attribute, a scalar, another instance ... are handled by the same statement. *)
 Theorem C03_setattr_preserves_owned :
-  forall ct, flat_table ct -> no_inval_table ct -> forall roots x a v s,
+  forall ct, flat_table ct -> inval_spec ct -> forall roots x a v s,
     Inv ct (heap s) -> loose (heap s) v ->
     (forall l, nth x roots VNone = VRef l -> recv_leafc ct l a (heap s)) ->
     Inv ct (heap (snd (step ct roots (OpSetAttr x a v) s))).
 Proof. exact step_setattr_coll. Qed.
 
 Theorem C03_with_inplace_preserves_owned :
-  forall ct, flat_table ct -> no_inval_table ct -> forall roots x a hh s,
+  forall ct, flat_table ct -> inval_spec ct -> forall roots x a hh s,
     Inv ct (heap s) -> loose (heap s) (pos0 hh) -> h_inplace hh = true -> h_kw hh = None ->
     (forall l, nth x roots VNone = VRef l -> recv_leafc ct l a (heap s)) ->
     Inv ct (heap (snd (step ct roots (OpHelper x (HWith a) hh) s))).
@@ -379,14 +379,14 @@ Proof. exact step_with_inplace_coll. Qed.
    only_view for the inserter write) or holds nothing and has no class-level default (a
    fresh collection is created, filled and stored) *)
 Theorem C03_with_item_inplace_preserves_owned :
-  forall ct, flat_table ct -> no_inval_table ct -> forall roots x a hh s,
+  forall ct, flat_table ct -> inval_spec ct -> forall roots x a hh s,
     h_inplace hh = true -> h_kw hh = None -> Inv ct (heap s) ->
     (forall l, nth x roots VNone = VRef l -> recv_leafc ct l a (heap s) /\ dflt_missingc ct l a (heap s)) ->
     Inv ct (heap (snd (step ct roots (OpHelper x (HWithItem a) hh) s))).
 Proof. exact step_with_item_inplace_coll. Qed.
 
 Theorem C03_without_item_inplace_preserves_owned :
-  forall ct, flat_table ct -> no_inval_table ct -> forall roots x a hh s,
+  forall ct, flat_table ct -> inval_spec ct -> forall roots x a hh s,
     h_inplace hh = true -> Inv ct (heap s) ->
     (forall l, nth x roots VNone = VRef l -> recv_leafc ct l a (heap s) /\ dflt_missingc ct l a (heap s)) ->
     Inv ct (heap (snd (step ct roots (OpHelper x (HWithoutItem a) hh) s))).
@@ -416,15 +416,15 @@ Proof. exact dc_instance. Qed.
 (* mutate_attr(..., inplace=False): deep copy of the receiver, _thawed(copy) (frozen classes
    included), store into the copy *)
 Theorem C03_mutate_attr_copy_on_write :
-  forall ct, flat_table ct -> no_inval_table ct -> no_reserved_names ct ->
-  forall rec l a v tc s cl (d : list (nat * val)) k,
+  forall ct, flat_table ct -> inval_spec ct -> no_reserved_names ct ->
+  forall fuel l a v tc s cl (d : list (nat * val)) k,
     Inv ct (heap s) -> FI ct (heap s) l cl d k -> loose (heap s) v ->
     (tc = false -> forall sp, lookup_attr k a = Some sp -> check_type FUEL ct (heap s) v (a_ty sp) = true) ->
-    Inv ct (heap (snd (mutate_attr ct rec l a v false tc false false s))).
+    Inv ct (heap (snd (mutate_attr ct (exec ct fuel) l a v false tc false false s))).
 Proof. exact mutate_attr_cow. Qed.
 
 Theorem C03_with_copy_on_write :
-  forall ct, flat_table ct -> no_inval_table ct -> no_reserved_names ct ->
+  forall ct, flat_table ct -> inval_spec ct -> no_reserved_names ct ->
   forall l a hh s cl d k,
     h_inplace hh = false -> h_kw hh = None ->
     Inv ct (heap s) -> loose (heap s) (pos0 hh) -> flat_recv ct l (heap s) cl d k ->
@@ -433,7 +433,7 @@ Theorem C03_with_copy_on_write :
 Proof. exact with_cow. Qed.
 
 Theorem C03_with_item_copy_on_write :
-  forall ct, flat_table ct -> no_inval_table ct -> no_reserved_names ct ->
+  forall ct, flat_table ct -> inval_spec ct -> no_reserved_names ct ->
   forall l a hh s cl d k,
     h_inplace hh = false -> h_kw hh = None ->
     Inv ct (heap s) -> flat_recv ct l (heap s) cl d k ->
@@ -443,7 +443,7 @@ Theorem C03_with_item_copy_on_write :
 Proof. exact with_item_cow. Qed.
 
 Theorem C03_without_item_copy_on_write :
-  forall ct, flat_table ct -> no_inval_table ct -> no_reserved_names ct ->
+  forall ct, flat_table ct -> inval_spec ct -> no_reserved_names ct ->
   forall l a hh s cl d k,
     h_inplace hh = false ->
     Inv ct (heap s) -> flat_recv ct l (heap s) cl d k ->
@@ -458,7 +458,7 @@ Proof. exact without_item_cow. Qed.
    copied by InitMethod (protect_via_deepcopy), so they need not be fresh: it is enough that
    they are flat (a non-reference, or a container of non-references). *)
 Theorem C03_constructor_preserves_owned :
-  forall ct, flat_table ct -> no_inval_table ct -> no_reserved_names ct ->
+  forall ct, flat_table ct -> inval_spec ct -> no_reserved_names ct ->
   forall roots c k pos kw s,
     ctor_class ct c k -> Inv ct (heap s) -> kw_flat kw (heap s) ->
     match pos with Some v => flat_val (heap s) v | None => True end ->
@@ -466,7 +466,7 @@ Theorem C03_constructor_preserves_owned :
 Proof. exact step_construct. Qed.
 
 Theorem C03_del_preserves_owned :
-  forall ct, flat_table ct -> no_inval_table ct -> forall roots x a s,
+  forall ct, flat_table ct -> inval_spec ct -> forall roots x a s,
     Inv ct (heap s) ->
     (forall l, nth x roots VNone = VRef l -> exists cl k, is_inst l cl (heap s) /\ lookup_cls ct cl = Some k /\
        forall sp, lookup_attr k a = Some sp -> leaf_attr sp /\ default_ok k sp) ->
@@ -474,7 +474,7 @@ Theorem C03_del_preserves_owned :
 Proof. exact step_delattr. Qed.
 
 Theorem C03_reset_inplace_preserves_owned :
-  forall ct, flat_table ct -> no_inval_table ct -> forall roots x a hh s,
+  forall ct, flat_table ct -> inval_spec ct -> forall roots x a hh s,
     h_inplace hh = true -> Inv ct (heap s) ->
     (forall l, nth x roots VNone = VRef l -> exists cl k, is_inst l cl (heap s) /\ lookup_cls ct cl = Some k /\
        forall sp, lookup_attr k a = Some sp -> leaf_attr sp /\ default_ok k sp) ->
@@ -482,7 +482,7 @@ Theorem C03_reset_inplace_preserves_owned :
 Proof. exact step_reset_inplace. Qed.
 
 Theorem C03_reset_copy_on_write :
-  forall ct, flat_table ct -> no_inval_table ct -> no_reserved_names ct ->
+  forall ct, flat_table ct -> inval_spec ct -> no_reserved_names ct ->
   forall l a hh s cl d k,
     h_inplace hh = false -> Inv ct (heap s) -> flat_recv ct l (heap s) cl d k ->
     (forall sp, lookup_attr k a = Some sp -> leaf_attr sp /\ default_ok k sp) ->
@@ -493,7 +493,7 @@ Proof. exact reset_cow. Qed.
    AttributeError of one of them is swallowed and the loop goes on (the frame survives
    failures) *)
 Theorem C03_reset_all_preserves_owned :
-  forall ct, flat_table ct -> no_inval_table ct -> no_reserved_names ct ->
+  forall ct, flat_table ct -> inval_spec ct -> no_reserved_names ct ->
   forall l hh s cl d k,
     Inv ct (heap s) -> flat_recv ct l (heap s) cl d k ->
     (forall a sp, lookup_attr k a = Some sp -> leaf_attr sp /\ default_ok k sp) ->
@@ -506,7 +506,7 @@ Proof. exact reset_all. Qed.
    which copies the elements of its argument, is excluded).  Preparers of leaf attributes
    are such callbacks. *)
 Theorem C03_update_item_preserves_owned :
-  forall ct, flat_table ct -> no_inval_table ct -> no_reserved_names ct ->
+  forall ct, flat_table ct -> inval_spec ct -> no_reserved_names ct ->
   (forall l a hh s, h_inplace hh = true -> h_kw hh = None ->
      Inv ct (heap s) -> recv_leafc ct l a (heap s) -> dflt_missingc ct l a (heap s) ->
      Inv ct (heap (snd (run_helper ct l (HUpdateItem a) hh s)))) /\
@@ -518,7 +518,7 @@ Theorem C03_update_item_preserves_owned :
 Proof. intros ct Hf Hn Hr. split; [apply update_item_inplace|apply update_item_cow]; auto. Qed.
 
 Theorem C03_transform_item_preserves_owned :
-  forall ct, flat_table ct -> no_inval_table ct -> no_reserved_names ct ->
+  forall ct, flat_table ct -> inval_spec ct -> no_reserved_names ct ->
   (forall l a hh s, h_inplace hh = true -> h_kwfn hh = [] -> oqfn (h_fn hh) ->
      Inv ct (heap s) -> recv_leafc ct l a (heap s) -> dflt_missingc ct l a (heap s) ->
      Inv ct (heap (snd (run_helper ct l (HTransformItem a) hh s)))) /\
@@ -530,7 +530,7 @@ Theorem C03_transform_item_preserves_owned :
 Proof. intros ct Hf Hn Hr. split; [apply transform_item_inplace|apply transform_item_cow]; auto. Qed.
 
 Theorem C03_update_preserves_owned :
-  forall ct, flat_table ct -> no_inval_table ct -> no_reserved_names ct ->
+  forall ct, flat_table ct -> inval_spec ct -> no_reserved_names ct ->
   (forall l a hh s, h_inplace hh = true -> h_kw hh = None -> is_sentinel (pos0 hh) = false ->
      Inv ct (heap s) -> loose (heap s) (pos0 hh) -> recv_leafa ct l a (heap s) ->
      Inv ct (heap (snd (run_helper ct l (HUpdate a) hh s)))) /\
@@ -541,7 +541,7 @@ Theorem C03_update_preserves_owned :
 Proof. intros ct Hf Hn Hr. split; [apply update_inplace|apply update_cow]; auto. Qed.
 
 Theorem C03_transform_copy_on_write :
-  forall ct, flat_table ct -> no_inval_table ct -> no_reserved_names ct ->
+  forall ct, flat_table ct -> inval_spec ct -> no_reserved_names ct ->
   forall l a hh s cl d k,
     h_inplace hh = false -> h_kwfn hh = [] -> oqfn (h_fn hh) ->
     Inv ct (heap s) -> flat_recv ct l (heap s) cl d k ->
